@@ -61,7 +61,7 @@ func layout(t types.Type) []Comp {
 	case *types.Pointer, *types.Map, *types.Chan, *types.Signature, *types.Interface:
 		out = []Comp{{"", IntSort, t, "ref"}}
 	case *types.Slice:
-		out = []Comp{{".base", IntSort, nil, "sbase"}, {".off", IntSort, nil, "soff"}, {".len", IntSort, nil, "slen"}, {".cap", IntSort, nil, "scap"}}
+		out = []Comp{{".base", IntSort, nil, "sbase"}, {".off", IntSort, nil, "soff"}, {".len", IntSort, nil, "slen"}, {".cap", IntSort, t, "scap"}}
 	case *types.Struct:
 		for i := 0; i < u.NumFields(); i++ {
 			for _, c := range layout(u.Field(i).Type()) {
@@ -137,6 +137,7 @@ type Value struct {
 	Loc *Loc
 	Fn  *ssa.Function // static function value
 	Bi  *ssa.Builtin
+	St  *State // result of a Go call inside a specification: the state in which its objects live
 }
 
 func (v Value) one() *Term {
@@ -385,4 +386,66 @@ func scalarFact(c Comp, t *Term, wm *Term) *Term {
 		return Ge(t, IntLit(0))
 	}
 	return True
+}
+
+func f64Of(t *Term) (float64, bool) {
+	if t.Op != "fplit" {
+		return 0, false
+	}
+	var bits uint64
+	for _, c := range t.Name {
+		bits = bits<<1 | uint64(c-'0')
+	}
+	return math.Float64frombits(bits), true
+}
+
+// F64Arith: float64 arithmetic is NOT bit-blasted (probed: mixed with integer reasoning it times out on every
+// solver); it is an uninterpreted function of its operands, folded exactly when both are literals.
+// Comparisons and classification (NaN, Inf, sign) stay in the SMT FloatingPoint theory.
+func F64Arith(op string, a, b *Term) *Term {
+	x, okx := f64Of(a)
+	y, oky := f64Of(b)
+	if okx && oky {
+		switch op {
+		case "add":
+			return F64Lit(x + y)
+		case "sub":
+			return F64Lit(x - y)
+		case "mul":
+			return F64Lit(x * y)
+		case "div":
+			return F64Lit(x / y)
+		}
+	}
+	return UF("f64."+op, F64Sort, a, b)
+}
+
+func F64Round(mode string, a *Term) *Term {
+	if x, ok := f64Of(a); ok {
+		switch mode {
+		case "floor":
+			return F64Lit(math.Floor(x))
+		case "ceil":
+			return F64Lit(math.Ceil(x))
+		case "trunc":
+			return F64Lit(math.Trunc(x))
+		}
+	}
+	return UF("f64."+mode, F64Sort, a)
+}
+
+var gcSizes = types.SizesFor("gc", "amd64")
+
+// maxSliceCap: a slice's backing array fits in the address space, so cap*sizeof(elem) <= MaxInt64.
+func maxSliceCap(sliceT types.Type) *big.Int {
+	max := new(big.Int).Set(maxInt64)
+	if sl, ok := sliceT.Underlying().(*types.Slice); ok {
+		func() {
+			defer func() { recover() }()
+			if sz := gcSizes.Sizeof(sl.Elem()); sz > 1 {
+				max.Quo(max, big.NewInt(sz))
+			}
+		}()
+	}
+	return max
 }
